@@ -67,6 +67,7 @@ const (
 	mEchoCap
 	mCallback
 	mFail
+	mGetCapLate
 )
 
 func meth(m uint16) capnp.Method { return capnp.Method{InterfaceID: ifaceID, MethodID: m} }
@@ -163,6 +164,17 @@ func newApp(gate chan struct{}) *capnp.Client {
 		}},
 		{Method: meth(mFail), Impl: func(ctx context.Context, call *server.Call) error {
 			return errors.New("boom")
+		}},
+		// returns a new capability once the gate opens OR its context is cancelled (a method that
+		// finishes its work although the caller lost interest)
+		{Method: meth(mGetCapLate), Impl: func(ctx context.Context, call *server.Call) error {
+			call.Ack()
+			waitGate(ctx, gate)
+			res, err := call.AllocResults(argSize)
+			if err != nil {
+				return err
+			}
+			return setCap(res, self())
 		}},
 	}
 	self = func() *capnp.Client { return capnp.NewClient(server.New(methods, nil, nil, nil)) }
@@ -336,6 +348,12 @@ func runCase(t *testing.T, cs caseSpec, flush func(runResult)) {
 				apps[s].Release()
 				continue
 			}
+			// the harness keeps a reference of its own to each bootstrap capability: when answer.Return
+			// shuts the connection down on the application's goroutine (overrelease scenario), the
+			// Conn must not drop the LAST reference to the server whose call is returning --
+			// server.Shutdown would wait for that very call (observation O3 in docs/C09.md)
+			keep := apps[s].AddRef()
+			w.cleanup = append(w.cleanup, keep.Release)
 			w.conn[s] = rpc.NewConn(w.ft[s], &rpc.Options{BootstrapClient: apps[s]})
 		}
 
@@ -417,6 +435,9 @@ func runCase(t *testing.T, cs caseSpec, flush func(runResult)) {
 		nw, nr, _ := w.frwc[side].counts()
 		res.counts = fmt.Sprintf("nm=%d send=%d recv=%d write=%d read=%d steps=%d",
 			w.ft[side].nNew, w.ft[side].nSend, w.ft[side].nRecv, nw, nr, w.stepN)
+		if os.Getenv("C09_DEBUG") != "" {
+			fmt.Fprintln(os.Stderr, "counts:", res.counts, "obs:", res.obs)
+		}
 		flush(res)
 		if len(w.viol) > 0 {
 			// goroutines may be stuck for good: do not try to leave the bubble
@@ -703,6 +724,83 @@ func init() {
 	})
 	// a hostile peer answers the Bootstrap with a Return whose capability table is
 	// [senderHosted 7, receiverHosted 99]: recvPayload imports the first, fails on the second
+	// a peer that over-releases: Finish(releaseResultCaps) before the call returns, the result
+	// carries a newly exported capability, and the Release for that export arrives in the window
+	// in which sendReturn has dropped c.mu to put the Return on the wire: destroy fails and
+	// answer.Return itself shuts the connection down (on the application's goroutine)
+	rawScenarios["overrelease"] = true
+	reg("overrelease", func(w *world) {
+		raw := w.ft[1]
+		rawSend := func(build func(m rpccp.Message) error) {
+			msg, send, release, err := raw.NewMessage(w.ctx)
+			if err != nil {
+				return
+			}
+			defer release()
+			if build(msg) == nil {
+				send()
+			}
+		}
+		w.do("raw-bootstrap-and-call", func() {
+			rawSend(func(m rpccp.Message) error {
+				b, err := m.NewBootstrap()
+				b.SetQuestionId(0)
+				return err
+			})
+			rawSend(func(m rpccp.Message) error {
+				c, err := m.NewCall()
+				if err != nil {
+					return err
+				}
+				c.SetQuestionId(1)
+				c.SetInterfaceId(ifaceID)
+				c.SetMethodId(mGetCapLate)
+				t, err := c.NewTarget()
+				if err != nil {
+					return err
+				}
+				t.SetImportedCap(0)
+				pl, err := c.NewParams()
+				if err != nil {
+					return err
+				}
+				st, err := capnp.NewStruct(pl.Segment(), argSize)
+				if err != nil {
+					return err
+				}
+				return pl.SetContent(st.ToPtr())
+			})
+		})
+		if !w.step() {
+			return
+		}
+		resume := make(chan struct{})
+		// send #0 of A is the bootstrap Return, #1 the Return of the call
+		w.ft[0].onSend = map[int]func(){1: func() {
+			rawSend(func(m rpccp.Message) error {
+				r, err := m.NewRelease()
+				r.SetId(1)
+				r.SetReferenceCount(1)
+				return err
+			})
+			<-resume // held inside send (sender lock held, c.mu free) until the Release was handled
+		}}
+		// Finish(releaseResultCaps) before the call returned: the call's context is cancelled, the
+		// method returns its capability, the Return is parked inside send by the hook
+		w.do("raw-finish", func() {
+			rawSend(func(m rpccp.Message) error {
+				f, err := m.NewFinish()
+				f.SetQuestionId(1)
+				f.SetReleaseResultCaps(true)
+				return err
+			})
+		})
+		// quiescence with the Return parked inside send: the receive goroutine handles the Release
+		// (it only needs c.mu); the sender lock is legitimately held here, so no lock probe
+		synctest.Wait()
+		close(resume)
+		w.step()
+	})
 	rawScenarios["hostilecaps"] = true
 	reg("hostilecaps", func(w *world) {
 		var boot *capnp.Client
